@@ -1425,10 +1425,10 @@ function locate_statements(rbql_expression) {
 function separate_actions(rbql_expression) {
     rbql_expression = str_strip(rbql_expression);
     var result = {};
-    let with_match = /^(.*)  *[Ww][Ii][Tt][Hh] *\(([a-z]{4,20})\) *$/.exec(rbql_expression);
+    let with_match = /^(.*)  *[Ww][Ii][Tt][Hh] *\(([a-zA-Z]{4,20})\) *$/.exec(rbql_expression);
     if (with_match !== null) {
         rbql_expression = with_match[1];
-        result[WITH] = with_match[2];
+        result[WITH] = with_match[2].toLowerCase();
     }
     var ordered_statements = locate_statements(rbql_expression);
     for (var i = 0; i < ordered_statements.length; i++) {
